@@ -134,6 +134,10 @@ def gen(rng, tier):
     cases.append("acc 2 c f7 e0 c c")
     # the same while the global logger's queue is full: logging the failure must not cost the accept loop
     cases += ["acc 2 c G1 e0 c c", "acc 1 G2 c"]
+    # a failed accept while a connection is live, then more clients than slots: the failure neither costs nor creates a slot
+    cases += ["acc 2 c f1 c c", "acc 3 c c f1 c c c", "acc 1 c f1 c e0 c"]
+    # tokens 0, 1, 2 end in three different ways (dropped; dropped while their thread panics; dropped on another thread)
+    cases += ["acc 3 c c c c c c e1 e0 e2 c", "acc 2 c c e1 c e0 c"]
     if tier == "thorough":
         cases += ["acc 1 f4 c", "acc 1 f12 c", "acc 2 f16 c"]
         # accept() failing with EMFILE while a client knocks (descriptor limit lowered for 0.7 s)
